@@ -278,7 +278,8 @@ def rule_lifting(ctx):
             ctx.check(R, "Block/new-block-iff-pending-predecessors", cs == ["!pred_set.is_empty()"], "complete_basic_block under %s" % cs, site(LF, comp[0]))
             ctx.check(R, "Block/new-block-follows-pending-predecessors", render(strip(comp[0]["args"][2])) == "pred_set" and render(strip(comp[0]["args"][3])) == "loop_depth", render(comp[0])[:100], site(LF, comp[0]))
             ex = unconditional(body, vis[0])
-            ctx.check(R, "Block/every-statement-visited", not ex, str(ex), site(LF, vis[0]))
+            early = [x["k"] for x in walk(body) if x["k"] in ("Break", "Continue", "Return")]
+            ctx.check(R, "Block/every-statement-visited", not ex and not early, "%s; early exits in the arm: %s (a statement after an exit is not lifted: e.g. the code after a loop whose body returns)" % (ex, early), site(LF, vis[0]))
             asg = [n for n in walk(body) if n["k"] == "Assign" and render(n["l"]) == "pred_set"]
             ctx.check(R, "Block/pending-set-is-the-last-statement's", len(asg) == 1 and any(x is vis[0] for x in walk(asg[0]["r"])), "pred_set must be replaced by the result of visiting each statement", site(LF, arm))
             ctx.check(R, "Block/result", result_exprs(body) == ["Ok(pred_set)"], str(result_exprs(body)), site(LF, arm))
